@@ -32,12 +32,13 @@ def load_mutants() -> list[dict]:
                 if meta.get("obsolete"):
                     continue  # no longer a property-breaking change on the current tree (reason in its meta.json)
                 muts.append({"prop": meta["property"], "name": f"seeded/{d.name}", "patch": str(d / "patch.diff"),
-                             "also": meta.get("also_checked_by", [])})
+                             "also": meta.get("also_checked_by", []), "tier": meta.get("tier")})
     return muts
 
 
 def run_one(m: dict, tier: str) -> tuple[dict, str, str]:
     """The change's own property first; if that check stays quiet, the properties named in meta.json's also_checked_by."""
+    tier = m.get("tier") or tier  # a change that only the thorough tier can reach says so in its meta.json
     res = _run_one(m, tier)
     if res[1] == "MISSED":
         for other in m.get("also", []):
